@@ -21,7 +21,8 @@ def validate(trace, module='Trace_Run', cfg=None, timeout=300, env=None):
     """-> dict(accepted, states, reason, rejected_at, event, wall)"""
     cfg = cfg or module
     meta = trace + '.tlcmeta'
-    cmd = ['timeout', '-k', '15', str(timeout), 'java', '-XX:+UseSerialGC', '-Xmx3g', '-Xss1g',
+    os.makedirs(meta, exist_ok=True)
+    cmd = ['timeout', '-k', '15', str(timeout), 'java', '-Djava.io.tmpdir=' + meta, '-XX:+UseSerialGC', '-Xmx3g', '-Xss1g',
            '-Dtlc2.tool.queue.IStateQueue=StateDeque', '-cp', run.TLA_JAR, 'tlc2.TLC', '-workers', '1',
            '-metadir', meta, '-cleanup', '-noGenerateSpecTE', '-config', cfg + '.cfg', module + '.tla']
     e = dict(os.environ, TRACE=trace)
